@@ -2254,100 +2254,156 @@ def _inplace_updates(fn):
     return muts
 
 
+def _obj_of(desc):
+    return desc.split("`")[1] if desc and "`" in desc else None
+
+
+def _accessor_analysis(repo, rel, fn, cls, argmap, depth=0):
+    """-> (persistent objects the return values may share memory with,
+    [(node, base text, persistence or None)] in-place updates) of `fn` and
+    of the same-module helpers / same-class methods it delegates to;
+    `argmap`: parameter -> persistence description of the caller's argument"""
+    if depth > 3:
+        raise AnalysisError(f"{rel}: accessor helpers nested deeper than 3")
+    a = fn.args
+    params = [x.arg for x in a.posonlyargs + a.args + a.kwonlyargs]
+    defs = _local_defs(fn)
+    modfuncs = {st.name: st for st in repo.tree(rel).body
+                if isinstance(st, ast.FunctionDef)}
+    methods = {st.name: st for st in (cls.body if cls is not None else [])
+               if isinstance(st, ast.FunctionDef)}
+    selfname = params[0] if cls is not None and params and not any(
+        txt(d) == "staticmethod" for d in fn.decorator_list) else None
+    sub = {}
+    muts = []
+
+    def helper_of(call):
+        f = call.func
+        if isinstance(f, ast.Name) and f.id in modfuncs and f.id not in defs:
+            return modfuncs[f.id], None, 0
+        if isinstance(f, ast.Attribute) and isinstance(f.value, ast.Name) \
+                and f.value.id == selfname and f.attr in methods:
+            return methods[f.attr], cls, 1
+        return None
+
+    def persists(e, seen=()):
+        if isinstance(e, tuple):
+            return persists(e[1], seen) if e[0] == "iter" else None
+        if isinstance(e, ast.Name):
+            if e.id in seen or e.id in MODULE_NAMES:
+                return None
+            if e.id not in defs:
+                if e.id in params:
+                    return argmap.get(e.id)
+                return f"the module-level object `{e.id}`"
+            hits = [persists(v, seen + (e.id,)) for v in defs[e.id]]
+            if e.id in params:
+                hits.append(argmap.get(e.id))
+            hits = [h for h in hits if h]
+            return hits[0] if hits else None
+        if isinstance(e, ast.Attribute):
+            if isinstance(e.value, ast.Name) and e.value.id == selfname \
+                    and selfname is not None:
+                return f"the instance attribute `self.{e.attr}`"
+            return persists(e.value, seen)
+        if isinstance(e, ast.Subscript):
+            h = persists(e.value, seen)
+            return h and (h if h.startswith("an element/view") else
+                          f"an element/view of {h}")
+        if isinstance(e, ast.IfExp):
+            return persists(e.body, seen) or persists(e.orelse, seen)
+        if isinstance(e, ast.BoolOp):
+            hs = [h for h in (persists(v, seen) for v in e.values) if h]
+            return hs[0] if hs else None
+        if isinstance(e, ast.NamedExpr):
+            return persists(e.value, seen)
+        if isinstance(e, ast.Call):
+            if id(e) in sub:
+                r = sub[id(e)]
+                return r[0] if r else None
+            cn = call_name(e) or ""
+            if cn == "np.array":
+                if _falsy_copy(e) and e.args:
+                    return persists(e.args[0], seen)
+                return None
+            if cn in VIEW_CALLS and e.args:
+                return persists(e.args[0], seen)
+            if cn == "getattr" and e.args:
+                return persists(ast.Attribute(value=e.args[0], attr="?",
+                                              ctx=ast.Load()), seen)
+            if isinstance(e.func, ast.Attribute):
+                if e.func.attr in VIEW_METHODS:
+                    return persists(e.func.value, seen)
+                if e.func.attr == "astype" and _falsy_copy(e):
+                    return persists(e.func.value, seen)
+                if e.func.attr in ("setdefault", "get"):
+                    return persists(e.func.value, seen)
+            return None      # result of an external call: new or unknown
+        return None
+
+    # delegation: helpers are analysed with the persistence of the arguments
+    for c in walk(fn):
+        if not isinstance(c, ast.Call):
+            continue
+        h = helper_of(c)
+        if h is None:
+            continue
+        hfn, hcls, skip = h
+        ha = hfn.args
+        hparams = [x.arg for x in ha.posonlyargs + ha.args]
+        if any(isinstance(x, ast.Starred) for x in c.args) or any(
+                k.arg is None for k in c.keywords):
+            raise AnalysisError(f"{rel}: `{txt(c)[:50]}` passes */** "
+                                f"arguments to an accessor helper")
+        amap = {}
+        for pname, arg in zip(hparams[skip:], c.args):
+            amap[pname] = persists(arg)
+        for k in c.keywords:
+            amap[k.arg] = persists(k.value)
+        rets, hm = _accessor_analysis(repo, rel, hfn, hcls, amap, depth + 1)
+        sub[id(c)] = rets
+        muts += hm
+
+    for node, target in _inplace_updates(fn):
+        base = target
+        while isinstance(base, ast.Subscript):
+            base = base.value
+        if isinstance(target, ast.Name) and isinstance(node, ast.AugAssign):
+            vals = defs.get(target.id, [])
+            if vals and all(isinstance(v, ast.Constant) for v in vals):
+                continue       # rebinding of a scalar
+        muts.append((node, txt(base), persists(base)))
+    rets = [h for h in (persists(r.value) for r in walk(fn)
+                        if isinstance(r, ast.Return) and r.value is not None)
+            if h]
+    return rets, muts
+
+
 def r1810(ctx, repo):
     n_acc = 0
     for rel in TDMS_COLUMNS:
         for q, fn in repo.all_functions(rel):
             if fn.name != "__getitem__" or "." not in q:
                 continue
+            cls = fn.parent if isinstance(getattr(fn, "parent", None),
+                                          ast.ClassDef) else None
+            if cls is None:
+                continue
             n_acc += 1
-            a = fn.args
-            params = {x.arg for x in a.args + a.kwonlyargs}
-            selfname = a.args[0].arg if a.args else None
-            defs = _local_defs(fn)
-
-            def persists(e, seen=()):
-                """-> description of the object outliving the call that `e`
-                may share memory with, or None"""
-                if isinstance(e, tuple):
-                    return persists(e[1], seen) if e[0] == "iter" else None
-                if isinstance(e, ast.Name):
-                    if e.id in seen or e.id in MODULE_NAMES:
-                        return None
-                    if e.id not in defs:
-                        if e.id in params:
-                            return None      # the caller's object
-                        return f"the module-level object `{e.id}`"
-                    hits = [persists(v, seen + (e.id,)) for v in defs[e.id]]
-                    hits = [h for h in hits if h]
-                    return hits[0] if hits else None
-                if isinstance(e, ast.Attribute):
-                    if isinstance(e.value, ast.Name) and e.value.id == \
-                            selfname:
-                        return f"the instance attribute `{txt(e)}`"
-                    if e.attr in VIEW_METHODS:
-                        return persists(e.value, seen)
-                    return persists(e.value, seen)
-                if isinstance(e, ast.Subscript):
-                    h = persists(e.value, seen)
-                    return h and f"an element/view of {h}"
-                if isinstance(e, ast.IfExp):
-                    return persists(e.body, seen) or persists(e.orelse, seen)
-                if isinstance(e, ast.BoolOp):
-                    hs = [persists(v, seen) for v in e.values]
-                    hs = [h for h in hs if h]
-                    return hs[0] if hs else None
-                if isinstance(e, ast.NamedExpr):
-                    return persists(e.value, seen)
-                if isinstance(e, ast.Call):
-                    cn = call_name(e) or ""
-                    if cn == "np.array":
-                        if _falsy_copy(e) and e.args:
-                            return persists(e.args[0], seen)
-                        return None
-                    if cn in VIEW_CALLS and e.args:
-                        return persists(e.args[0], seen)
-                    if cn in ("getattr",) and e.args:
-                        return persists(ast.Attribute(
-                            value=e.args[0], attr="?", ctx=ast.Load()), seen)
-                    if isinstance(e.func, ast.Attribute):
-                        if e.func.attr in VIEW_METHODS:
-                            return persists(e.func.value, seen)
-                        if e.func.attr == "astype" and _falsy_copy(e):
-                            return persists(e.func.value, seen)
-                        if e.func.attr in ("setdefault", "get") and \
-                                persists(e.func.value, seen):
-                            return persists(e.func.value, seen)
-                    return None      # result of a call: new or unknown
-                return None
-
-            returned = [r.value for r in walk(fn)
-                        if isinstance(r, ast.Return) and r.value is not None]
-            ret_pers = [h for h in (persists(r) for r in returned) if h]
+            rets, muts = _accessor_analysis(repo, rel, fn, cls, {})
+            handed_out = {_obj_of(r) for r in rets}
             per_base = {}
-            for node, target in _inplace_updates(fn):
-                base = target
-                while isinstance(base, ast.Subscript):
-                    base = base.value
-                if isinstance(target, ast.Name) and isinstance(
-                        node, ast.AugAssign):
-                    vals = defs.get(target.id, [])
-                    if vals and all(isinstance(v, ast.Constant)
-                                    for v in vals):
-                        continue       # rebinding of a scalar
-                per_base.setdefault(txt(base), []).append((node, base))
+            for node, name, h in muts:
+                per_base.setdefault(name, []).append((node, h))
             for name, items in per_base.items():
-                node, base = items[0]
-                h = persists(base)
-                handed = h is not None and any(
-                    h.split("`")[1] == r.split("`")[1] for r in ret_pers
-                    if "`" in h and "`" in r)
-                ctx.ob("R18.10", not handed,
+                hs = [(n_, h) for n_, h in items if h is not None
+                      and _obj_of(h) in handed_out]
+                node, h = hs[0] if hs else items[0]
+                ctx.ob("R18.10", not hs,
                        f"{len(items)} in-place update(s) of `{name}` in {q} "
-                       f"act on an array allocated in this call"
-                       if h is None else
-                       f"{q} updates `{name}` ({h}) in place, the buffer is "
-                       f"not handed out" if not handed else
+                       f"(and its helpers) act on an array allocated in "
+                       f"this call or on a buffer that is not handed out"
+                       if not hs else
                        f"`{short(node, 50)}` fills `{name}` in place, which "
                        f"is {h}, and {q} returns it: every call hands out "
                        f"the same array and the next call overwrites the "
@@ -3353,4 +3409,43 @@ TWINS = list(TWINS) + [
       '        written_with = parse_version(dclab_version)\n'
       '        fixed_in = parse_version("0.47.6")\n'
       '        if not written_with >= fixed_in:\n')),
+]
+
+# round-7 refactoring campaign/refactorings_round7/C18/refactor2: the mask is
+# filled in a module-level helper
+_MASK_BODY = (_MASK_ALLOC +
+              "        conti = self.contour[idx]\n"
+              "        mask[conti[:, 1], conti[:, 0]] = True\n"
+              "        ndi.binary_fill_holes(mask, output=mask)\n"
+              "        return mask\n")
+_MASK_HELPER = ("def _filled_contour_mask(img_shape, contour, idx, out=None):\n"
+                "    mask = np.zeros(img_shape, dtype=bool) if out is None "
+                "else out\n"
+                "    conti = contour[idx]\n"
+                "    mask[conti[:, 1], conti[:, 0]] = True\n"
+                "    ndi.binary_fill_holes(mask, output=mask)\n"
+                "    return mask\n\n\n"
+                "class MaskColumn(object):\n")
+
+TWINS = list(TWINS) + [
+    ("tdms mask filled by a module-level helper that allocates it", TDMS_MASK,
+     [("class MaskColumn(object):\n", _MASK_HELPER),
+      (_MASK_BODY,
+       "        return _filled_contour_mask(self._img_shape, self.contour, "
+       "idx)\n")]),
+]
+
+MUTANTS = list(MUTANTS) + [
+    ("tdms mask filled by a helper into a per-instance buffer", TDMS_MASK,
+     [("class MaskColumn(object):\n", _MASK_HELPER),
+      ("        self._img_shape_cache = None\n",
+       "        self._img_shape_cache = None\n"
+       "        self._mask_buf = None\n"),
+      (_MASK_BODY,
+       "        if self._mask_buf is None:\n"
+       "            self._mask_buf = np.zeros(self._img_shape, dtype=bool)\n"
+       "        self._mask_buf[:] = False\n"
+       "        return _filled_contour_mask(self._img_shape, self.contour, "
+       "idx,\n                                    out=self._mask_buf)\n")],
+     "R18.10"),
 ]
